@@ -4,10 +4,12 @@
 package rules
 
 import (
-	"reflect"
 	"fmt"
 	"go/token"
+	"os"
+	"reflect"
 	"sort"
+	"strings"
 
 	"golang.org/x/tools/go/ssa"
 
@@ -136,3 +138,55 @@ func (c *Ctx) undecided(rule string, f *ssa.Function, construct string, at ssa.I
 }
 
 func sprintf(f string, a ...any) string { return fmt.Sprintf(f, a...) }
+
+// Vocab prints the names of all golibs functions over every build
+// configuration (input for core/vocab.txt).
+func Vocab() int {
+	seen := map[string]bool{}
+	for _, bc := range [][2]string{{"", ""}, {"linux", "386"}, {"windows", "amd64"}, {"darwin", "arm64"}, {"freebsd", "amd64"}, {"openbsd", "amd64"}} {
+		p, err := core.Load(core.LoadOpts{GOOS: bc[0], GOARCH: bc[1], NoInline: true})
+		if err != nil {
+			fmt.Fprintln(os.Stderr, "gsa:", err)
+			return 3
+		}
+		for path := range p.SPkgs {
+			if !strings.HasPrefix(path, core.ModPath) {
+				continue
+			}
+			for _, f := range p.Funcs(path) {
+				seen[core.FuncName(f)] = true
+			}
+		}
+	}
+	var names []string
+	for n := range seen {
+		names = append(names, n)
+	}
+	sort.Strings(names)
+	for _, n := range names {
+		fmt.Println(n)
+	}
+	return 0
+}
+
+// DumpSSA prints the normalised SSA of one function.
+func DumpSSA(pkg, name string) int {
+	p, err := core.Load(core.LoadOpts{})
+	if err != nil {
+		fmt.Fprintln(os.Stderr, "gsa:", err)
+		return 3
+	}
+	for _, l := range p.InlineLog {
+		fmt.Println("inlined:", l)
+	}
+	fn := p.Func(pkg, name)
+	if fn == nil {
+		fmt.Fprintln(os.Stderr, "gsa: no such function")
+		return 3
+	}
+	fn.WriteTo(os.Stdout)
+	for _, af := range fn.AnonFuncs {
+		af.WriteTo(os.Stdout)
+	}
+	return 0
+}
